@@ -10,7 +10,7 @@
    ones (accepted exactly when NumPy accepts, same result, ValueError otherwise).  The single `_refuted` statement left
    is the documented restriction of sparse.roll (a tuple of shifts against one axis). *)
 From Coq Require Import ZArith List Bool Sorting.Sorted.
-From Verif Require Import Py Shape COO COOP GCXS Convert ConvertG G_shapeops ShapeOps NpShapeOps ShapeOpsP ShapeOpsG ShapeOpsGP.
+From Verif Require Import Py Shape COO COOP GCXS Convert ConvertG ConvertU G_shapeops ShapeOps NpShapeOps ShapeOpsP ShapeOpsG ShapeOpsGP ShapeOpsGA.
 Import ListNotations.
 Open Scope Z_scope.
 
@@ -511,6 +511,67 @@ Theorem gcxs_via_coo_repr :
     end.
 Proof. exact gcxs_via_coo_repr_proof. Qed.
 Print Assumptions gcxs_via_coo_repr.
+
+(* ------------------------------------------------------------------------------------------------------------
+   The same for EVERY well-formed GCXS record, however it was built (Proofs/ShapeOpsGA.v).  C05's surjectivity theorem
+   (from_coo_tocoo / Proofs/ConvertU.gcxs_image) shows that a record accepted by gcxs_strictb — gcxs_wfb, and for
+   ndim < 2 the unused compressed_axes / indptr fields empty, as GCXS.__init__ keeps them — is the compressed form of
+   its own tocoo(), which is canonical; so the hypothesis "g = _from_coo c ca" of the theorems above is discharged and
+   the statements speak about g alone. *)
+
+Theorem gcxs_transpose_den_any :
+  forall V : Type,
+    (V -> V -> bool) ->
+    (V -> V -> V) ->
+    forall (g : gcxs V) (axes : option (list Z)) (r : gcxs V),
+    gcxs_strictb V g = true ->
+    gcxs_transpose g axes = Ok r ->
+    let n := zlen (g_shape g) in
+    let perm := tr_perm n axes in
+    tr_valid n axes /\
+    gcxs_wfb r = true /\
+    g_shape r = np_transpose_shape (g_shape g) perm /\
+    g_fill r = g_fill g /\
+    (forall ix : idx, in_range (g_shape r) ix -> gden r ix = np_transpose perm (gden g) ix).
+Proof. exact gcxs_transpose_den_any_proof. Qed.
+Print Assumptions gcxs_transpose_den_any.
+
+Theorem gcxs_transpose_raises_any :
+  forall (V : Type) (veqb : V -> V -> bool) (add : V -> V -> V) (g : gcxs V) (axes : option (list Z)) (e : exc),
+    gcxs_strictb V g = true ->
+    coo_transpose (gcxs_tocoo veqb add g) axes = Raise e -> gcxs_transpose g axes = Raise e.
+Proof. exact gcxs_transpose_raises_any_proof. Qed.
+Print Assumptions gcxs_transpose_raises_any.
+
+Theorem gcxs_reshape_den_any :
+  forall (V : Type) (veqb : V -> V -> bool) (add : V -> V -> V) (g : gcxs V) (new : list Z) (r : gcxs V),
+    gcxs_strictb V g = true ->
+    gcxs_reshape veqb add g new = Some (Ok r) ->
+    gcxs_wfb r = true /\
+    size (g_shape r) = size (g_shape g) /\
+    g_fill r = g_fill g /\
+    np_reshape_target (g_shape g) new = Ok (g_shape r) /\
+    (forall ix : idx, in_range (g_shape r) ix -> gden r ix = np_reshape (g_shape g) (g_shape r) (gden g) ix).
+Proof. exact gcxs_reshape_den_any_proof. Qed.
+Print Assumptions gcxs_reshape_den_any.
+
+Theorem gcxs_reshape_raises_any :
+  forall (V : Type) (veqb : V -> V -> bool) (add : V -> V -> V) (g : gcxs V) (new : list Z) (e : exc),
+    gcxs_strictb V g = true ->
+    coo_reshape (gcxs_tocoo veqb add g) new = Raise e -> gcxs_reshape veqb add g new = Some (Raise e).
+Proof. exact gcxs_reshape_raises_any_proof. Qed.
+Print Assumptions gcxs_reshape_raises_any.
+
+Theorem gcxs_via_coo_any :
+  forall (V : Type) (veqb : V -> V -> bool) (add : V -> V -> V) (g : gcxs V) (f : coo V -> res (coo V)),
+    gcxs_strictb V g = true ->
+    via_coo veqb add g f =
+    match f (gcxs_tocoo veqb add g) with
+    | Ok c' => Ok (gcxs_from_coo c' (default_caxes (c_shape c')))
+    | Raise e => Raise e
+    end.
+Proof. exact gcxs_via_coo_any_proof. Qed.
+Print Assumptions gcxs_via_coo_any.
 
 (* broadcast_arrays: np.broadcast_shapes of the operands' shapes is a target every operand broadcasts to, so each
    output is covered by broadcast_to_den *)
